@@ -917,3 +917,15 @@ def slice_sort_noop(eng, c, a, g):
         if isinstance(v, VecModel): eng.obligations.append(('sort of a sequence longer than 1 is not modelled', AND(g, cnd, ULT(BV(1, eng.W), v.len))))
     return UNIT
 MODELS_NORM = [(re.compile(r'<impl \[.*\]>::sort'), slice_sort_noop)] + MODELS_NORM
+
+def range_len(eng, c, a, g):
+    r = deref_val(eng, a[0])
+    eng.obligations.append(('Range::len with start > end', AND(g, ULT(r.f[1], r.f[0]))))
+    return SUB(r.f[1], r.f[0])
+def char_len_utf8(eng, c, a, g):
+    ch = a[0]
+    W = eng.W
+    if z3.is_bv_value(ch):
+        v = ch.as_long(); return BV(1 if v < 0x80 else 2 if v < 0x800 else 3 if v < 0x10000 else 4, W)
+    return IF(ULT(ch, BV(0x80, 32)), BV(1, W), IF(ULT(ch, BV(0x800, 32)), BV(2, W), IF(ULT(ch, BV(0x10000, 32)), BV(3, W), BV(4, W))))
+MODELS_NORM = [(re.compile(r'<Range<usize> as ExactSizeIterator>::len'), range_len), (re.compile(r'<impl char>::len_utf8'), char_len_utf8)] + MODELS_NORM
